@@ -58,29 +58,31 @@ def report(ctx, val):
 
 
 def corruptions(traces):
-    t = None
-    for x in traces:
-        if not (x["lossless"] and x["snaps"] and all(s["status"] == "ok" for s in x["snaps"])):
-            continue
+    """variants of accepted lossless traces that CleanerTrace must reject, with the clause expected:
+    the word corruptions on a trace with a word inside a section, the table one on a trace with a
+    table of >= 2 non-empty rows and >= 2 non-empty columns that is still a table at the end"""
+    def ok(x):
+        return x["lossless"] and x["snaps"] and not x.get("truncated") and all(s["status"] == "ok" for s in x["snaps"]) \
+            and len([s for s in x["snaps"] if not s["same"]]) >= 2
+
+    def has_big(x):
         s0 = x["snaps"][0]
-        tables = [i for i, c in enumerate(s0["cls"]) if c == "Table"]
 
         def full(r):
             return [c for c in s0["kids"][r] if s0["cls"][c - 1] == "Cell" and s0["kids"][c - 1]]
-        big = False
-        for ti in tables:
-            rows = [r - 1 for r in s0["kids"][ti] if s0["cls"][r - 1] == "Row" and full(r - 1)]
-            if len(rows) >= 2 and any(len(full(r)) >= 2 for r in rows):
-                big = True
-        if len(s0["words"]) >= 4 and big and len(tables) == 1 and any(w["sec"] for w in s0["words"]) and \
-                "Table" in CT.trees_around(x, len(x["snaps"]))[1]["cls"]:
-            t = x
-            break
-    if t is None:
+        tables = [i for i, c in enumerate(s0["cls"]) if c == "Table"]
+        if len(tables) != 1:
+            return False
+        rows = [r - 1 for r in s0["kids"][tables[0]] if s0["cls"][r - 1] == "Row" and full(r - 1)]
+        return len(rows) >= 2 and any(len(full(r)) >= 2 for r in rows) and "Table" in CT.trees_around(x, len(x["snaps"]))[1]["cls"]
+
+    tw = next((x for x in traces if ok(x) and len(x["snaps"][0]["words"]) >= 4 and any(w["sec"] for w in x["snaps"][0]["words"])), None)
+    tt = next((x for x in traces if ok(x) and has_big(x)), None)
+    if tw is None or tt is None:
         return []
     out = []
 
-    def variant(expect, f):
+    def variant(t, expect, f):
         v = copy.deepcopy({k: t[k] for k in ("id", "lossless", "truncated", "order", "snaps", "raw", "lang")})
         v["id"] = 900000 + len(out)
         f(v)
@@ -89,17 +91,18 @@ def corruptions(traces):
     def second(v):
         idx = [i for i, s in enumerate(v["snaps"]) if not s["same"]]
         return v["snaps"][idx[1]]
-    variant("C07 word-count", lambda v: second(v)["words"].pop())
+    variant(tw, "C07 word-count", lambda v: second(v)["words"].pop())
 
     def swapw(v):
         w = second(v)["words"]
-        w[0], w[1] = w[1], w[0]
-    variant("C07 word-order", swapw)
+        k = next(i for i in range(len(w) - 1) if w[i]["w"] != w[i + 1]["w"])
+        w[k], w[k + 1] = w[k + 1], w[k]
+    variant(tw, "C07 word-order", swapw)
 
     def move(v):
         w = next(w for w in second(v)["words"] if w["sec"])
         w["sec"] = w["sec"][:-1]
-    variant("C07 word-place", move)
+    variant(tw, "C07 word-place", move)
 
     def untable(v):
         last = v["snaps"][-1]
@@ -108,7 +111,7 @@ def corruptions(traces):
             last.update({k: copy.deepcopy(src[k]) for k in ("n", "cls", "par", "kids", "text", "words")})
             last["same"] = False
         last["cls"] = ["Div" if c == "Table" else c for c in last["cls"]]
-    variant("C07 tables-kept", untable)
+    variant(tt, "C07 tables-kept", untable)
     return out
 
 
